@@ -1168,3 +1168,88 @@ def gen_c14(repo, tier, seed, budget, out: Outcome, workdir):
                                        "what": f"result differs from the PYTHONHASHSEED=0 plain run ({mode}, hash seed {hs})"})
                 break
     out.samples = [{"kind": "c14", "input": {"mode": m, "hashseed": h, "items": len(items)}} for (m, h, s), _ in results[:3]]
+
+
+# --------------------------------------------------------------------------- probes of assumed dependency contracts (V3, V5, V6)
+def probe_v3(tier, seed):
+    """bliss via igraph: permute_vertices(canonical_permutation(color)) is identical for all relabelings of a coloured graph,
+    carries vertex attributes, and the returned vector is a permutation"""
+    import igraph
+    rnd = random.Random(seed)
+    max_n = 4 if tier == "quick" else 5
+    evals, bad = 0, []
+    for n in range(1, max_n + 1):
+        for edges in molgen.all_graphs(n):
+            for _ in range(2):
+                col = [rnd.randint(0, 1) for _ in range(n)]
+                forms = set()
+                perms = list(itertools.permutations(range(n))) if n <= 4 else [tuple(rnd.sample(range(n), n)) for _ in range(12)]
+                for p in perms:
+                    g = igraph.Graph(n=n, edges=[(p[u], p[v]) for u, v in edges])
+                    c = [0] * n
+                    for i in range(n):
+                        c[p[i]] = col[i]
+                    g.vs["name0"] = list(range(n))
+                    g.vs["c"] = c
+                    cp = g.canonical_permutation(color=c)
+                    evals += 1
+                    if sorted(cp) != list(range(n)):
+                        bad.append(f"not a permutation: {cp}")
+                        continue
+                    h = g.permute_vertices(cp)
+                    if sorted(h.vs["name0"]) != list(range(n)) or [c[i] for i in h.vs["name0"]] != h.vs["c"]:
+                        bad.append("vertex attributes not carried")
+                    forms.add((tuple(h.vs["c"]), tuple(sorted(tuple(sorted(e)) for e in h.get_edgelist()))))
+                if len(forms) != 1:
+                    bad.append(f"{len(forms)} canonical forms for one coloured graph n={n} edges={edges} col={col}")
+    return {"probe": "V3", "evaluations": evals, "failures": bad[:3], "bound": f"all graphs n<={max_n}, 2 random 2-colourings each, all (n<=4) or 12 relabelings"}
+
+
+def probe_v5(tier, seed):
+    rnd = random.Random(seed)
+    import struct
+    evals, bad = 0, []
+    xs = [0.0, -0.0, 1e-7, 5e-7, 4.9999995e-7, 1e300, -1e300, 2.0 ** 53 * 1e-6, 123456.7890125, 0.1 + 0.2, 5e-324, 2.2250738585072014e-308]
+    for _ in range(2000 if tier == "quick" else 200000):
+        k = rnd.random()
+        if k < .3:
+            xs.append(rnd.uniform(-100, 100))
+        elif k < .6:
+            xs.append(struct.unpack("<d", struct.pack("<Q", rnd.getrandbits(64)))[0])
+        else:
+            xs.append(round(rnd.uniform(-1e6, 1e6), rnd.randint(0, 9)))
+    for x in xs:
+        if x != x or x in (float("inf"), float("-inf")):
+            continue
+        evals += 1
+        s = f"{x:.6f}"
+        try:
+            y = float(s)
+        except ValueError:
+            bad.append(f"float({s!r}) raises")
+            continue
+        if f"{y:.6f}" != s:
+            bad.append(f"fmt6 not idempotent through float(): {x!r} -> {s} -> {y!r} -> {y:.6f}")
+    return {"probe": "V5", "evaluations": evals, "failures": bad[:3], "bound": "random finite doubles incl. raw bit patterns, subnormals, ±0, 1e300"}
+
+
+def probe_v6(tier, seed):
+    rnd = random.Random(seed)
+    evals, bad = 0, []
+    for _ in range(200 if tier == "quick" else 5000):
+        s = rnd.random()
+        l = list(range(rnd.randint(0, 12)))
+        random.seed(s)
+        a = list(l)
+        random.shuffle(a)
+        b = list(l)
+        random.shuffle(b)
+        random.seed(s)
+        a2 = list(l)
+        random.shuffle(a2)
+        b2 = list(l)
+        random.shuffle(b2)
+        evals += 1
+        if sorted(a) != l or sorted(b) != l or a != a2 or b != b2:
+            bad.append(f"seed {s}: shuffle not a deterministic permutation")
+    return {"probe": "V6", "evaluations": evals, "failures": bad[:3], "bound": "random seeds in [0,1), lists of length <= 12, two consecutive shuffles"}
